@@ -44,13 +44,13 @@ fn write_lines(path: &std::path::Path, lines: &[J]) {
     std::fs::write(path, s).unwrap();
 }
 
-pub struct BatchObs { pub records: Vec<J>, pub status: String, pub consumed: u64, pub raw: Vec<String>, pub join_calls: u64 }
+pub struct BatchObs { pub records: Vec<J>, pub status: String, pub consumed: u64, pub raw: Vec<String>, pub join_calls: u64, pub result_rows: u64 }
 
 /// one batch run through FileExecutor with JSON output; `intr` = the model's interrupt point
 pub fn run_batch(tables: &sqlgrep::Tables, query: &str, files: &[std::path::PathBuf], intr: &J, format: OutputFormat) -> BatchObs {
     let stmt = match sqlgrep::parsing::parse(query) {
         Ok(s) => s,
-        Err(e) => return BatchObs { records: vec![], status: format!("parse_err: {}", e), consumed: 0, raw: vec![], join_calls: 0 }
+        Err(e) => return BatchObs { records: vec![], status: format!("parse_err: {}", e), consumed: 0, raw: vec![], join_calls: 0, result_rows: 0 }
     };
     let running = Arc::new(AtomicBool::new(true));
     let lines = Rc::new(RefCell::new(Vec::new()));
@@ -80,14 +80,14 @@ pub fn run_batch(tables: &sqlgrep::Tables, query: &str, files: &[std::path::Path
         let engine = ExecutionEngine::new(tables, &stmt);
         let mut ex = FileExecutor::with_output_printer(running.clone(), fs, opts, printer, engine).unwrap();
         let r = ex.execute();
-        (r.is_ok(), ex.statistics().total_lines)
+        (r.is_ok(), ex.statistics().total_lines, ex.statistics().total_result_rows)
     }));
     verif_hooks::clear();
     let raw = lines.borrow().clone();
-    let (status, consumed) = match res { Ok((true, c)) => ("ok".to_string(), c), Ok((false, c)) => ("err".to_string(), c), Err(_) => ("panic".to_string(), 0) };
+    let (status, consumed, result_rows) = match res { Ok((true, c, n)) => ("ok".to_string(), c, n), Ok((false, c, n)) => ("err".to_string(), c, n), Err(_) => ("panic".to_string(), 0, 0) };
     let records = raw.iter().filter(|l| !l.is_empty()).map(|l| serde_json::from_str::<J>(l).unwrap_or(json!({"\u{0}unparsable": l}))).collect();
     let join_calls = *jcalls.borrow();
-    BatchObs { records, status, consumed, raw, join_calls }
+    BatchObs { records, status, consumed, raw, join_calls, result_rows }
 }
 
 /// expected rows (abstract) -> expected JSON records; None if a value has no JSON form (non-finite REAL)
@@ -133,7 +133,7 @@ pub fn replay(cases: &[J]) -> J {
                 paths.push(p);
             }
             let obs = run_batch(&tables, &query, &paths, &case["intr"], OutputFormat::Json);
-            let observed = json!({"records": obs.records, "status": obs.status, "consumed": obs.consumed, "join_lines_read": obs.join_calls, "query": query});
+            let observed = json!({"records": obs.records, "status": obs.status, "consumed": obs.consumed, "join_lines_read": obs.join_calls, "total_result_rows": obs.result_rows, "query": query});
             let exp_recs = expected_records(&case["cols"], &case["printed"]);
             let expected = json!({"records": exp_recs, "status": exp_status, "consumed": case["consumed"], "join_lines_read": case["jcalls"]});
             let ok = match exp_status {
@@ -142,6 +142,8 @@ pub fn replay(cases: &[J]) -> J {
                      && exp_recs.as_ref().map(|e| records_match(&obs.records, e)).unwrap_or(true)
                      && (exp_status == "panic" || obs.consumed == case["consumed"].as_u64().unwrap())
                      && (exp_status != "ok" || case["jcalls"].as_u64().map(|j| j == obs.join_calls).unwrap_or(true))
+                     // statistics().total_result_rows counts exactly the records printed
+                     && (exp_status == "panic" || obs.result_rows == obs.records.len() as u64)
             };
             if ok {
                 for d in &devs { rep.dev_witness(d, case); rep.count(&format!("dev_{}", d)); }
